@@ -20,6 +20,9 @@ EDGE = [
     'x, S { m.get("k").unwrap(): 1, v[i + 1].0: "s", .. }', 'x, -5..=-1', 'x, ..', 'x, [.., 5]', 'x, [1, ..]',
     'x, [5.., ..=2, 3]', 'x, [..5]', 'x, (.., 1)', 'x, Some(..)', 'x, #{ "k": .., .. }', 'x, S { r#type: 1, r#match.len(): 2, .. }',
     'x, E::V { r#fn: "s" }', 'x, _ { r#type: 1, .. }', 'x, _ { 4294967295: 1, .. }', 'x, S { a.4294967295: 1, .. }', 'x, (4294967295: 1)',
+    'x, #{ "k": _ { a: 1 } }', 'x, Some(_ { a: 1 })', 'x, [_ { a: 1 }]', 'x, (_ { a: 1 }, 2)', 'x, #(_ { a: 1 })', 'x, S { f: _ { a: 1 } }', 'x, #{ "k": [_ { a: 1 }], .. }', 'x, _ { f: _ { a: 1 }, .. }',
+    'x, =~ ("re")', 'x, =~ (("re"))', 'x, =~ (re)', 'x, S { a.m(1, 2, 3): 4, b.n("x", y, z + 1).0: 5, .. }', 'x, (p)', 'x, ((p))', 'x, (_)', 'x, S { a: (> 5), b: (_), c: ((1, 2)) }',
+    'x, #(5.., 1)', 'x, #(1, 5..)', 'x, #(1..3, ..)', 'x, [5.., 1]', 'x, S { r#type: 1, r#type.r#match: 2, .. }', 'x, S { a.0.1: 1, a.1.0: 2, a.2.0.1: 3, a.clone().1.0: 4, .. }', 'x, (0.1.0: 1, 1.0: 2)',
     'x, S { t.0.1: 1, t.1.0.2: 2, .. }', 'x, S { a: 1, }', 'x, S { a: 1, .., }', 'x, #(1, 2, ..,)', 'x, [1, 2,]', 'x, (1, 2,)', 'x, #{ "a": 1, }',
     # nesting depth 10 of every composite (parsing a tuple / variant element is speculative: each level parses twice)
     "x, " + "(" * 10 + "1, 2" + ",)" * 10,
@@ -67,6 +70,59 @@ def _split_nodes_body(toks):
         if t.split("@")[0] == marker:
             return i
     return len(toks)
+
+
+def node_table(toks):
+    """Reads the pattern-node definitions out of an expansion's token list: node -> (kind, children, rest flag, parent, position).
+    Returns None when the definitions do not have the shape this reader knows (then only the token-level comparison speaks)."""
+    names = []
+    for t in toks:
+        h = t.split("@")[0]
+        names.append(("s:" + unhexs(h[2:])) if h.startswith("s:") else unhexs(h))
+    table = {}
+    i = 0
+    n = len(names)
+    try:
+        while i < n:
+            if names[i] == "static" and i + 1 < n and names[i + 1].startswith("__PATTERN_NODE_"):
+                node = names[i + 1]
+                j = i + 2
+                while names[j] != "NodeKind":
+                    j += 1
+                while names[j] in ("NodeKind", ":"):
+                    j += 1
+                kind = names[j]
+                children, rest, parent = [], None, None
+                j += 1
+                while names[j] != "parent":
+                    if names[j].startswith("__PATTERN_NODE_"):
+                        children.append(names[j])
+                    if names[j] == "rest" and names[j + 1] == ":":
+                        rest = names[j + 2]
+                    if names[j] == "op" and names[j + 1] == ":":
+                        k2 = j + 2
+                        while names[k2] != "ComparisonOp":
+                            k2 += 1
+                        kind += ":" + names[k2 + 3]
+                    j += 1
+                j += 2
+                if names[j] == "Some":
+                    while not names[j].startswith("__PATTERN_NODE_"):
+                        j += 1
+                    parent = names[j]
+                loc = []
+                for key in ("line_start", "col_start", "line_end", "col_end"):
+                    while names[j] != key:
+                        j += 1
+                    loc.append(names[j + 2])
+                table[node] = (kind, tuple(children), rest, parent, tuple(loc))
+                i = j
+            elif names[i] == "__PATTERN_TREE":
+                break
+            i += 1
+    except (IndexError, ValueError):
+        return None
+    return table
 
 
 def run(ck, n_gen=None):
@@ -185,6 +241,10 @@ def run(ck, n_gen=None):
             mism.append(dict(text=texts[k], part="wellformed",
                              detail="node constants defined: %s; referred to but not defined: %s; defined more than once: %s" % (
                                  sorted(set(defined)), sorted(referenced - set(defined)), sorted({d for d in defined if defined.count(d) > 1}))))
+        ta, tb = node_table(a), node_table(b)
+        if ta is not None and tb is not None and ta != tb:
+            diffs = ["%s: recorded %s | as written %s" % (k_, ta.get(k_), tb.get(k_)) for k_ in sorted(set(ta) | set(tb)) if ta.get(k_) != tb.get(k_)]
+            mism.append(dict(text=texts[k], part="tree", detail="(kind, children, rest, parent, position) per node - " + "; ".join(diffs[:4])))
         if a != b:
             i = next((i for i, (x, y) in enumerate(zip(a, b)) if x != y), min(len(a), len(b)))
             part = "nodes" if i < _split_nodes_body(a) else "body"
